@@ -228,4 +228,68 @@ example : (determineStatus default .running [.succeeded, .running]).isComplete =
 example : (determineStatus default .running [.terminal, .running]).isComplete = true := by decide   -- the halted-task disjunct
 example : determineStatus { (default : StageCfg) with cont := true } .running [.terminal, .notStarted] = .failedContinue := by decide
 
+/-- **CompleteStage turns a stage SUCCEEDED only when its tasks are finished** - for every state, every delivery (early, late,
+    duplicated): whenever a commit of the CompleteStage handler writes a stage row whose status becomes SUCCEEDED, that row is
+    the handler's own stage, its task list is written back unchanged, and (when the stage has tasks) every task is SUCCEEDED
+    or SKIPPED.  The handler-level consequence of `stage_succeeded_means_every_task_ok`; the only other rows the handler
+    writes are join-tracking updates of downstream stages, which keep their status (`joinTracking_keeps_status`). -/
+theorem completeStage_writes_succeeded_only_when_tasks_done (c : Cfg) (s : State) (id i : Nat) (txn : Txn)
+    (ht : txn ∈ hCompleteStage c s id i) (j : Nat) (st' : StageSt) (he : Eff.setStage j st' ∈ txn)
+    (hs : st'.status = .succeeded) (hchg : (s.stage j).status ≠ .succeeded) :
+    j = i ∧ st'.tasks = (s.stage i).tasks ∧
+      ((s.stage i).tasks ≠ [] → ∀ t ∈ (s.stage i).tasks, t.status = .succeeded ∨ t.status = .skipped) := by
+  unfold hCompleteStage at ht
+  simp only [] at ht
+  split at ht
+  · simp at ht; subst ht; simp at he
+  split at ht
+  · split at ht
+    · simp at ht; subst ht; simp at he
+    · simp at ht
+  split at ht
+  · simp at ht; subst ht; simp at he
+  split at ht
+  · simp at ht; subst ht; simp at he
+    obtain ⟨_, rfl⟩ := he
+    simp at hs
+  split at ht
+  · rename_i hdone
+    rw [List.mem_append] at ht
+    rcases ht with ht | ht
+    · have := joinTracking_keeps_status c s i txn ht j st' he
+      rw [hs] at this
+      exact absurd this.symm hchg
+    · simp only [List.mem_singleton] at ht
+      subst ht
+      simp only [List.mem_append, List.mem_cons, Eff.setStage.injEq, reduceCtorEq, List.not_mem_nil, or_false] at he
+      rcases he with ⟨rfl, rfl⟩ | he
+      · refine ⟨rfl, rfl, ?_⟩
+        intro hne t htm
+        simp only at hs
+        have hne' : (s.stage j).tasks.map (·.status) ≠ [] := by simpa using hne
+        have := stage_succeeded_means_every_task_ok (c.stage j) (s.stage j).status _ hne' hs t.status (List.mem_map_of_mem htm)
+        exact this
+      · exfalso
+        unfold splitCont at he
+        split at he
+        · simp at he
+        · simp at he
+  · simp at ht; subst ht; simp at he
+    obtain ⟨_, rfl⟩ := he
+    rename_i hnd _
+    exfalso
+    apply hnd
+    have hs' : determineStatus (c.stage i) (s.stage i).status (List.map (fun x => x.status) (s.stage i).tasks) = Status.succeeded := hs
+    simp [hs']
+
+/-- one stage, one succeeding task -/
+def oneStage : Cfg :=
+  { wfMaxj := none,
+    stages := [{ reqs := [], join := JoinType.and, threshold := 0, cont := false, failp := true, enabled := none, maxj := none,
+                 tasks := [[Outcome.succ]] }] }
+
+-- non-vacuity: after StartWorkflow .. CompleteTask the CompleteStage handler does write the stage SUCCEEDED
+example : (hCompleteStage oneStage (run oneStage [.deliver 1, .deliver 2, .deliver 3, .deliver 4, .deliver 5]) 6 0).any
+    (fun txn => txn.any (fun e => match e with | .setStage 0 st' => st'.status == .succeeded | _ => false)) = true := by decide
+
 end Stab.Props.C05
